@@ -29,6 +29,12 @@ static EPOCH0: OnceLock<Instant> = OnceLock::new();
 fn now_ms() -> u64 {
     EPOCH0.get_or_init(Instant::now).elapsed().as_millis() as u64 + 1
 }
+pub fn arm() {
+    CUR_START.store(now_ms(), Ordering::SeqCst);
+}
+pub fn disarm() {
+    CUR_START.store(0, Ordering::SeqCst);
+}
 pub fn start_watchdog(hang_path: String) {
     now_ms();
     std::thread::spawn(move || loop {
